@@ -167,6 +167,7 @@ var Corpus = []Scenario{
 		// a percentage of a small number of nodes still rounds up to one pod: the rollout must not stall
 		sc := BaseStrategy()
 		sc.MaxUnavailable = "25%"
+		sc.SlowStartIncrease = "10%" // 0.3 pod per interval on three nodes: rounds up to one, also for the first deployment
 		x.Setup(3, "A", sc)
 		x.Template("B")
 		x.D.Converge(40)
